@@ -19,6 +19,7 @@ import (
 	"github.com/pentops/j5/internal/export"
 	"github.com/pentops/j5/internal/j5client"
 	"github.com/pentops/j5/internal/j5s/protoprint"
+	"github.com/pentops/j5/internal/j5s/protoprint/optionreflect"
 	"github.com/pentops/j5/internal/protosrc"
 	"github.com/pentops/j5/internal/structure"
 	"google.golang.org/protobuf/reflect/protoreflect"
@@ -97,3 +98,19 @@ func ParseProto(ctx context.Context, files map[string]string, names []string) ([
 	}
 	return out, nil
 }
+
+// ---- literal layer of the printer (C05)
+
+func PrototextString(in string) string { return optionreflect.VerifPrototextString(in) }
+
+func MarshalSingular(fd protoreflect.FieldDescriptor, val protoreflect.Value) (string, bool) {
+	return optionreflect.VerifMarshalSingular(fd, val)
+}
+
+func PrintFloat(n float64, bitSize int) string { return optionreflect.VerifFloat(n, bitSize) }
+
+func ContextRefName(contextOfCall, refElement protoreflect.Descriptor) (string, error) {
+	return protoprint.VerifContextRefName(contextOfCall, refElement)
+}
+
+func DefaultJSONName(name string) string { return protoprint.VerifDefaultJSONName(name) }
